@@ -377,6 +377,65 @@ theorem union_first_error_counterexample :
     unionEvents .strict ([.lexical 1, .facet 2 []] : List (Member Nat)) 0 = [0] ∧
     unionEvents .lax ([.lexical 1, .facet 2 []] : List (Member Nat)) 0 = [2] := by decide
 
+/-! ### the other mode-tested spot: wildcards with processContents
+
+  `XsdAnyAttribute.raw_decode` / `XsdAnyElement.raw_decode` test the validation mode explicitly
+  (`validation != 'skip'`) before they report a name without a global declaration or of an
+  unavailable namespace.  With that guard the events reached do not depend on strict / lax, so strict
+  raises precisely the first error that lax collects, for every processContents value, look-up
+  outcome and inner error list. -/
+
+theorem take_one_eq_nil {α} (l : List α) : l.take 1 = [] ↔ l = [] := by
+  cases l <;> simp
+
+/-- attribute wildcard: strict raises precisely the first error that lax collects -/
+theorem anyAttr_strict_raises_first_lax (pc : PC) (matching ps : Bool) (lk : Lookup) (eNA eUn eNF : Err) :
+    anyAttrEvents .strict pc matching ps lk eNA eUn eNF =
+      (anyAttrEvents .lax pc matching ps lk eNA eUn eNF).take 1 := by
+  simp [anyAttrEvents, inMode, anyAttrReachedWith, reportsMissing]
+
+/-- attribute wildcard: the verdict does not depend on the mode, and skip mode is silent -/
+theorem anyAttr_verdict_mode_independent (pc : PC) (matching ps : Bool) (lk : Lookup) (eNA eUn eNF : Err) :
+    (anyAttrEvents .strict pc matching ps lk eNA eUn eNF = [] ↔
+      anyAttrEvents .lax pc matching ps lk eNA eUn eNF = []) ∧
+    anyAttrEvents .skip pc matching ps lk eNA eUn eNF = [] := by
+  refine ⟨?_, rfl⟩
+  rw [anyAttr_strict_raises_first_lax, take_one_eq_nil]
+
+example : anyAttrEvents .strict .strict true false .notFound 0 1 2 = [2] ∧
+    anyAttrEvents .lax .strict true false .notFound 0 1 2 = [2] ∧
+    anyAttrEvents .lax .lax true false .notFound 0 1 2 = [] ∧
+    anyAttrEvents .lax .strict false false (.declared [7, 8]) 0 1 2 = [0, 7, 8] ∧
+    anyAttrEvents .strict .strict false false (.declared [7, 8]) 0 1 2 = [0] := by decide
+
+/-- element wildcard: strict raises precisely the first error that lax collects -/
+theorem anyElem_strict_raises_first_lax (pc : PC) (matching ps xsiType : Bool) (lk : Lookup) (anon : List Err)
+    (eNA eUn eNF : Err) :
+    anyElemEvents .strict pc matching ps xsiType lk anon eNA eUn eNF =
+      (anyElemEvents .lax pc matching ps xsiType lk anon eNA eUn eNF).take 1 := by
+  simp [anyElemEvents, inMode, anyElemReachedWith, reportsMissing]
+
+theorem anyElem_verdict_mode_independent (pc : PC) (matching ps xsiType : Bool) (lk : Lookup) (anon : List Err)
+    (eNA eUn eNF : Err) :
+    (anyElemEvents .strict pc matching ps xsiType lk anon eNA eUn eNF = [] ↔
+      anyElemEvents .lax pc matching ps xsiType lk anon eNA eUn eNF = []) ∧
+    anyElemEvents .skip pc matching ps xsiType lk anon eNA eUn eNF = [] := by
+  refine ⟨?_, rfl⟩
+  rw [anyElem_strict_raises_first_lax, take_one_eq_nil]
+
+example : anyElemEvents .lax .strict true false false .unavailable [5] 0 1 2 = [1, 5] ∧
+    anyElemEvents .strict .strict true false false .unavailable [5] 0 1 2 = [1] ∧
+    anyElemEvents .lax .strict true false true .unavailable [5] 0 1 2 = [5] ∧
+    anyElemEvents .lax .skip true false false .notFound [5] 0 1 2 = [] := by decide
+
+/-- The guard matters: written as `validation == 'strict'` the "not found" error of a strict wildcard
+    exists in strict mode only — validate() raises while iter_errors() yields nothing.
+    Replayed on the real code by the harness (witness case of family W). -/
+theorem wildcard_guard_counterexample :
+    inMode .strict (anyAttrReachedWith reportsMissingStrictOnly .strict .strict true false .notFound 0 1 2) = [2] ∧
+    inMode .lax (anyAttrReachedWith reportsMissingStrictOnly .lax .strict true false .notFound 0 1 2) = [] := by
+  decide
+
 /-! ### value constraints and the document-level state (Model/AttrDefaults.lean)
 
   `verdicts_agree` needs `events sv = events sd`.  The part of the descent where that equality could
